@@ -14,7 +14,9 @@ OBLIGATIONS = [
 OBLIGATIONS.append(ob('C09.row.protocol', 'verif_frag::rowproto::c09_row_protocol', 'ResultsWriter::write_row (verbatim body on a recording shim): row start, each (name, value) once in order, is_last exactly on the last column - also when the last column name occurs earlier (name, size, name) - then row end', units=['rowproto'], complete=False, bound='1 concrete row of 3 columns'))
 OBLIGATIONS.append(ob('C09.row.protocol.small', 'verif_frag::rowproto::c09_row_protocol_small', 'same for rows of 0, 1 and 2 (identical) columns', units=['rowproto'], complete=False, bound='3 concrete rows'))
 OBLIGATIONS.append(ob('C09.ordered.output', 'verif_frag::rowflow::c09_ordered_output', 'ordered-buffer output loop of list_search_results (verbatim): 3 buffered rows come out in buffer order with exactly 2 separators between them, independently of the match count', units=['rowflow'], complete=False, bound='3 concrete buffered rows'))
-CANARIES = [dict(harness=HT + 'canary_html_must_fail', units=['html']), dict(harness=FL + 'canary_flat_must_fail', units=['flat'])]
+OBLIGATIONS.append(ob('C09.wbuf.chunks', 'util::wbuf::verif_kani::c09_wbuf_chunks', 'real WritableBuffer::write: two chunks of up to 2 and 3 arbitrary bytes (valid UTF-8 on their own or not) are both accepted whole and the buffer holds exactly their concatenation', engine='K', units=['wbuf'], complete=False, bound='2 chunks of <= 2 and <= 3 symbolic bytes'))
+OBLIGATIONS.append(ob('C09.wbuf.split', 'util::wbuf::verif_kani::c09_wbuf_split_char', 'real WritableBuffer: a 3-byte character handed over in two pieces comes out whole in the rendered text', engine='K', units=['wbuf'], complete=False, bound='1 witness'))
+CANARIES = [dict(harness='util::wbuf::verif_kani::canary_wbuf_must_fail', units=['wbuf']), dict(harness=HT + 'canary_html_must_fail', units=['html']), dict(harness=FL + 'canary_flat_must_fail', units=['flat'])]
 ASSUMPTIONS = ['ASCII values only in the harnesses (multi-byte UTF-8 is copied by String::push in the real code; not exercised)']
 NOT_COVERED = ['JSON / CSV cell encoding (serde_json, csv crates)', 'the separator protocol between rows in the three searcher paths', 'equality of decoded content across formats', 'values longer than the stated bounds']
 HARNESS_TIMEOUT = 300
